@@ -167,6 +167,93 @@ def _attribute_check(pid, program, chk):
         chk.bad("O0.2", fi.qual, "self.%s is read here, but no class in the hierarchy of %s defines or assigns it (AttributeError at run time): the code this property rests on cannot run" % (x.attr, fi.cls.qual.split(":")[-1]), node=x, stmt="unresolved self.%s" % x.attr)
 
 
+SHARED_CONTROL = """
+class K:
+    table = {}
+    ok_table = {}
+    registry = set()
+    def __init__(self):
+        self.ok_table = {}
+    def put(self, k, v):
+        self.table[k] = v
+        self.ok_table[k] = v
+    @classmethod
+    def register(cls, x):
+        cls.registry.add(x)
+"""
+_MUTATORS = {"add", "append", "extend", "insert", "update", "setdefault", "pop", "popitem", "remove", "discard", "clear", "appendleft", "sort", "reverse"}
+_MUTABLE_CTORS = {"dict", "list", "set", "WeakSet", "WeakValueDictionary", "WeakKeyDictionary", "deque", "defaultdict", "OrderedDict", "Counter", "bytearray"}
+
+
+def _shared_mutable_sites(class_node):
+    """(attribute, node) for a mutable object created in the class body that a method mutates through `self` although
+    no constructor path re-binds it per instance"""
+    from sa import util as _util
+
+    attrs = {}
+    for st in class_node.body:
+        tg = st.targets if isinstance(st, _ast.Assign) else [st.target] if isinstance(st, _ast.AnnAssign) and st.value is not None else []
+        v = getattr(st, "value", None)
+        if v is None:
+            continue
+        mutable = isinstance(v, (_ast.Dict, _ast.List, _ast.Set)) or (isinstance(v, _ast.Call) and (_util.dotted(v.func) or "").split(".")[-1] in _MUTABLE_CTORS)
+        for t in tg:
+            if isinstance(t, _ast.Name) and mutable:
+                attrs[t.id] = st
+    out = []
+    if not attrs:
+        return out
+    init = next((f for f in class_node.body if isinstance(f, _ast.FunctionDef) and f.name == "__init__"), None)
+    rebound = set()
+    if init is not None:
+        for st in init.body:  # top-level statements of __init__: bound on every path
+            for t in (st.targets if isinstance(st, _ast.Assign) else [st.target] if isinstance(st, (_ast.AnnAssign, _ast.AugAssign)) else []):
+                for x in ([t] if not isinstance(t, (_ast.Tuple, _ast.List)) else t.elts):
+                    if isinstance(x, _ast.Attribute) and isinstance(x.value, _ast.Name) and x.value.id == "self":
+                        rebound.add(x.attr)
+    for f in class_node.body:
+        if not isinstance(f, (_ast.FunctionDef, _ast.AsyncFunctionDef)):
+            continue
+        for n in _ast.walk(f):
+            a = None
+            if isinstance(n, _ast.Call) and isinstance(n.func, _ast.Attribute) and n.func.attr in _MUTATORS:
+                d = _util.dotted(n.func.value) or ""
+                if d.startswith("self.") and d.count(".") == 1:
+                    a = d.split(".")[1]
+            elif isinstance(n, (_ast.Assign, _ast.AugAssign, _ast.Delete)):
+                for t in n.targets if isinstance(n, (_ast.Assign, _ast.Delete)) else [n.target]:
+                    if isinstance(t, _ast.Subscript):
+                        d = _util.dotted(t.value) or ""
+                        if d.startswith("self.") and d.count(".") == 1:
+                            a = d.split(".")[1]
+            if a in attrs and a not in rebound:
+                out.append((a, n, f.name))
+    return out
+
+
+def _shared_state_check(pid, program, chk):
+    """O0.3 (every property): no method mutates, through `self`, a mutable object that was created once in the class
+    body and is never re-bound per instance -- every instance of the class would share (and extend) that one object"""
+    from sa import query
+
+    m = query.adhoc_module(program, SHARED_CONTROL)
+    got = [(a, fn) for a, _n, fn in _shared_mutable_sites(m.tree.body[0])]
+    if got != [("table", "put")]:
+        chk.undecided("O0.3", "<positive control>", "the shared-state rule does not behave as expected on its control example: %s" % got)
+        return
+    files = set(_anchor_files(pid)) if chk.tier != "thorough" else {".py"}
+    n = 0
+    for cls in program.classes.values():
+        rel = getattr(cls.module, "relpath", "") or ""
+        if not any(rel.endswith(f) for f in files):
+            continue
+        n += 1
+        for a, node, fn in _shared_mutable_sites(cls.node):
+            chk.bad("O0.3", cls.qual + "." + fn, "%s mutates self.%s, a mutable object created once in the body of class %s and never re-bound in its constructor: all instances share (and extend) that one object" % (fn, a, cls.qual.split(":")[-1]), node=node, stmt="shared-mutable %s" % a)
+    chk.count(n)
+    chk.facts["O0.3 classes of the anchor files examined for shared mutable class state"] = n
+
+
 def _exercise_anchor_files(pid, program, chk):
     """interpret every function of the property's anchor files once, without hooks, only to collect O0.1 reads
     (thorough tier: every function of the package)"""
@@ -237,6 +324,7 @@ def run_property(pid, tier, seed, repo, replay=None):
             mod.run_thorough(chk)
         _exercise_anchor_files(pid, program, chk)
         _attribute_check(pid, program, chk)
+        _shared_state_check(pid, program, chk)
         # O0.1 (every property): a function the rules interpreted reads a local that no earlier statement on that
         # path has bound -- the anchored code raises UnboundLocalError / NameError instead of doing what the property says
         for (qual, name), line in sorted(interp.UNBOUND_READS.items()):
